@@ -43,6 +43,13 @@ SPECS = {
         ("hexa20_8pts", GAUSS, """        elif elemType == ElemType.HEXA20:
             nPg = 27""", """        elif elemType == ElemType.HEXA20:
             nPg = 8"""),
+        ("seg4_mass_3pts", GAUSS, """            elif matrixType == MatrixType.mass:
+                nPg = 4
+            elif matrixType == MatrixType.beam:
+                nPg = 6""", """            elif matrixType == MatrixType.mass:
+                nPg = 3
+            elif matrixType == MatrixType.beam:
+                nPg = 6"""),
         ("beam_mass_rotary_term", R + "Models/Beam/_beam.py", "            M = np.diag([A, A, 0])", "            M = np.diag([A, A, -1e-3 * A])"),
     ],
     "C03": [
@@ -109,6 +116,18 @@ SPECS = {
         ("eb2_hermite_ddN", ELBEAM, "        ddN2 = [lambda r: 3 * r / 4 - 1 / 4]", "        ddN2 = [lambda r: 3 * r / 4 + 1 / 4]"),
         ("eb3_hermite_slope_scale", ELBEAM, "        N2 = lambda r: r**2 * (r - 1) ** 2 * (r + 1) / 8", "        N2 = lambda r: r**2 * (r - 1) ** 2 * (r + 1) / 4"),
         ("hexa20_N_bubble_added", R + "FEM/Elems/_hexa.py", "        N1 = lambda r, s, t: (r - 1) * (s - 1) * (t - 1) * (r + s + t + 2) / 8", "        N1 = lambda r, s, t: (r - 1) * (s - 1) * (t - 1) * (r + s + t + 2) / 8 + (r**2 - 1) * (s**2 - 1) * (t**2 - 1) / 8"),
+    ],
+    "C07": [
+        ("tri12_abscissa_digit", GAUSS, "            c = 0.310352451033785", "            c = 0.310352451133785"),
+        ("tetra15_weight", GAUSS, "            p4: float = 5 / 567", "            p4: float = 5 / 576"),
+        ("quad9_center_weight", GAUSS, "                64 / 81,", "                60 / 81,"),
+        ("hexa27_abscissa", GAUSS, "            a = np.sqrt(3 / 5)\n            c1: float = 5 / 9\n            c2: float = 8 / 9\n\n            x = [-a] * 9", "            a = np.sqrt(3 / 4)\n            c1: float = 5 / 9\n            c2: float = 8 / 9\n\n            x = [-a] * 9"),
+        ("prism_rule_keeps_sum", GAUSS, "            yc = [1 / 3, 0.6, 0.2, 0.2] * 2\n            zc = [1 / 3, 0.2, 0.6, 0.2] * 2", "            yc = [1 / 3, 0.6, 0.2, 0.2] * 2\n            zc = [1 / 3, 0.2, 0.6, 0.25] * 2"),
+        ("tri6_rigi_1pt", GAUSS, """        elif elemType == ElemType.TRI6:
+            if matrixType == MatrixType.rigi:
+                nPg = 3""", """        elif elemType == ElemType.TRI6:
+            if matrixType == MatrixType.rigi:
+                nPg = 1"""),
     ],
 }
 
